@@ -212,17 +212,25 @@ theorem C05_dynamics_partial {lv : List (Name × Nat)} {r : BRxn} {lm : List Nat
     (hok : isotopomerReactions lv r lm = .ok rs) (hwf : nProd lv r ≤ lm.length)
     (hm : MassAction lv r) (hd : DistinctOccurrences lv r) (σ : LName → Rat) (x : Name) :
     ((binaryLabels x (labelsOf lv x)).map (rhsOf rs σ)).sum
-      = (netStoich r.stoich x : Rat) * r.rate (totalsEnv lv σ) := by
-  have hr : rhsOf rs σ = fun n => (rs.map fun rx => (coefOf rx.stoich n : Rat) * rx.rate σ).sum := by
-    funext n; rfl
-  rw [hr, sum_swap]
-  have : ∀ rx ∈ rs, ((binaryLabels x (labelsOf lv x)).map fun n =>
-      ((coefOf rx.stoich n : Int) : Rat) * rx.rate σ).sum
-        = (netStoich r.stoich x : Rat) * rx.rate σ := by
-    intro rx hrx
-    rw [sum_map_mul_right, ← C05_unit_stoich hok hwf rx hrx x, intCast_sum, List.map_map]
-    rfl
-  rw [List.map_congr_left this, sum_map_mul_left, collapse_core hok hd hm σ]
+      = (netStoich r.stoich x : Rat) * r.rate (totalsEnv lv σ) :=
+  dynamics_core hok hwf hm hd σ x
+
+/-- **whole model** (every mapped reaction mass action with distinct labelled occurrences and a map
+    covering the product atoms; unmapped reactions do not touch labelled compounds; the
+    environment reads `X__total` as the sum of the isotopomers of `X`): for every compound the
+    derivatives of its isotopomers in the model `build_model` returns add up to the base model's
+    derivative evaluated at the totals -/
+theorem C05_model_dynamics_partial {b : Base} {lv : List (Name × Nat)}
+    {maps : List (Name × List Nat)} {il : List (Name × List Nat)} {m : LModel}
+    (hb : buildModel b lv maps il = .ok m) (hr : ∀ r ∈ b.rxns, RxnOk lv maps r) (σ : LName → Rat)
+    (hσ : ∀ k n, lv.lookup k = some n → σ (plain (k ++ "__total")) = totalOf σ k n) (x : Name) :
+    ((binaryLabels x (labelsOf lv x)).map (rhsOf m.rxns σ)).sum
+      = baseRhsOf b.rxns (fun a => σ (totalName lv a)) x := by
+  obtain ⟨groups, hg, hrx, _, _⟩ := buildModel_rxns hb
+  rw [hrx, rhsOf_flatten_sum]
+  unfold baseRhsOf
+  have hfa := mapM_ok_forall₂ _ _ _ hg
+  exact forall₂_map_sum _ _ hfa (fun r grp hmem hgr => group_dynamics hgr (hr r hmem) σ hσ x)
 
 /-- the full statement (without `DistinctOccurrences`) is false of the code as it stands
     (finding F-C05-1): 2 A → B with rate `k·A·A`, A carrying one label; at A⁰ = 1, A¹ = 3, k = 1
